@@ -379,56 +379,84 @@ def _merge(a, b):
     return a
 
 
+def _child(task, conn):
+    try:
+        r = _run_ob(task)
+    except BaseException as e:  # noqa
+        r = {"name": task[0].name, "paths": 0, "checks": {}, "violations": [], "unknown": [], "stats": None, "remaining": [],
+             "error": "worker crashed: %r" % (e,), "outcomes": {}, "sample": None, "truncated": False, "wall_s": 0.0, "notes": {}}
+    try:
+        conn.send(r)
+        conn.close()
+    finally:
+        os._exit(0)
+
+
 def run_obligations(obs, deviations_for=None, canary_for=None, seed=0, workers=None,
                     solver_timeout_ms=20000, deadline=None):
-    """run obligations in a process pool; obligations flagged split hand their
-    unexplored prefixes back and are re-distributed."""
+    """run obligations in parallel: one freshly forked process per task (the parent stays single-threaded, so
+    forking is safe and no state leaks from one obligation to the next); obligations flagged `split` hand
+    their unexplored prefixes back and are re-distributed."""
+    from multiprocessing import connection
     workers = workers or min(16, os.cpu_count() or 4)
     deviations_for = deviations_for or {}
     canary_for = canary_for or {}
     results = {}
     ctxm = mp.get_context("fork")
-    pending = []
-    with ctxm.Pool(workers, maxtasksperchild=1) as pool:  # a fresh fork per task: no state leaks between obligations
-        def submit(ob, roots, cap):
-            t = (ob, roots, deviations_for.get(ob.name, ()), canary_for.get(ob.name), seed, solver_timeout_ms, cap)
-            pending.append((ob, pool.apply_async(_run_ob, (t,))))
+    order = list(obs)
+    random.Random(seed).shuffle(order)
+    queue = [(ob, None, 48 if ob.split else None) for ob in order]
+    queue.reverse()
+    active = {}
 
-        order = list(obs)
-        random.Random(seed).shuffle(order)
-        for ob in order:
-            submit(ob, None, 48 if ob.split else None)
-        while pending:
-            nxt = []
-            progressed = False
-            for ob, ar in pending:
-                if not ar.ready():
-                    nxt.append((ob, ar))
-                    continue
-                progressed = True
-                r = ar.get()
-                if ob.name in results:
-                    _merge(results[ob.name], r)
-                else:
-                    results[ob.name] = r
-                rem = r.pop("remaining", [])
-                if rem:
-                    if deadline and time.time() > deadline:
-                        results[ob.name]["truncated"] = True
-                    elif ob.split:
-                        n = max(1, min(len(rem), workers * 2))
-                        chunks = [rem[i::n] for i in range(n)]
-                        for ch in chunks:
-                            if ch:
-                                pending_add = (ob, ch, 400)
-                                t = (ob, ch, deviations_for.get(ob.name, ()), canary_for.get(ob.name), seed,
-                                     solver_timeout_ms, 400)
-                                nxt.append((ob, pool.apply_async(_run_ob, (t,))))
-                    else:
-                        results[ob.name]["truncated"] = True
-            pending = nxt
-            if not progressed:
-                time.sleep(0.02)
+    def account(ob, r):
+        if ob.name in results:
+            _merge(results[ob.name], r)
+        else:
+            results[ob.name] = r
+        rem = r.pop("remaining", [])
+        if rem:
+            if (deadline and time.time() > deadline) or not ob.split:
+                results[ob.name]["truncated"] = True
+            else:
+                n = max(1, min(len(rem), workers * 2))
+                for ch in [rem[i::n] for i in range(n)]:
+                    if ch:
+                        queue.append((ob, ch, 400))
+
+    while queue or active:
+        while queue and len(active) < workers:
+            ob, roots, cap = queue.pop()
+            task = (ob, roots, deviations_for.get(ob.name, ()), canary_for.get(ob.name), seed, solver_timeout_ms, cap)
+            rx, tx = ctxm.Pipe(duplex=False)
+            p = ctxm.Process(target=_child, args=(task, tx))
+            p.start()
+            tx.close()
+            active[rx] = (p, ob, time.time())
+        ready = connection.wait(list(active), timeout=1.0)
+        for rx in ready:
+            p, ob, t0 = active.pop(rx)
+            try:
+                r = rx.recv()
+            except (EOFError, OSError):
+                r = {"name": ob.name, "paths": 0, "checks": {}, "violations": [], "unknown": [], "stats": None, "remaining": [],
+                     "error": "worker died without a result (exit code %s)" % p.exitcode, "outcomes": {}, "sample": None,
+                     "truncated": False, "wall_s": round(time.time() - t0, 3), "notes": {}}
+            rx.close()
+            p.join(5)
+            account(ob, r)
+        # hard limit: a task that ignores its own deadline (e.g. a single solver call that never returns)
+        now = time.time()
+        for rx, (p, ob, t0) in list(active.items()):
+            limit = 2 * (ob.timeout_s or DEFAULT_OB_TIMEOUT[0]) + 120
+            if now - t0 > limit:
+                p.kill()
+                p.join(5)
+                active.pop(rx)
+                rx.close()
+                account(ob, {"name": ob.name, "paths": 0, "checks": {}, "violations": [], "unknown": ["hard-timeout"], "stats": None,
+                             "remaining": [], "error": None, "outcomes": {}, "sample": None, "truncated": True,
+                             "wall_s": round(now - t0, 3), "notes": {}})
     return results
 
 
